@@ -547,7 +547,8 @@ FindPend(pd, caller, callee, ser) ==
   ELSE 0
 CountPend(pd, caller) == Cardinality({i \in 1..Len(pd) : pd[i].caller = caller})
 
-GateW(pd, qs, s, adr, m) ==
+\* full: the recipient's outgoing queue holds more than max_outgoing_bytes (it is not reading)
+GateF(pd, qs, s, adr, m, full) ==
   LET k == IF m.rs # 0 THEN FindPend(pd, adr, s, m.rs) ELSE 0
       requested == k # 0
       pd1 == IF k # 0 THEN RemoveAt(pd, k) ELSE pd
@@ -557,11 +558,14 @@ GateW(pd, qs, s, adr, m) ==
        THEN [ok |-> FALSE, err |-> E_AccessDenied, pd |-> pd1]
   ELSE IF ~CanReceive(cfg.policy, Cred(adr), m, requested, HeldNames(qs, uname, s), FALSE)
        THEN [ok |-> FALSE, err |-> E_AccessDenied, pd |-> pd1]
+  \* (checked after both policies and before the reply expectation is recorded)
+  ELSE IF full THEN [ok |-> FALSE, err |-> E_LimitsExceeded, pd |-> pd1]
   ELSE IF ~wantsReply THEN [ok |-> TRUE, err |-> <<>>, pd |-> pd1]
   ELSE IF FindPend(pd1, s, adr, m.ser) # 0 THEN [ok |-> FALSE, err |-> E_AccessDenied, pd |-> pd1]
   ELSE IF CountPend(pd1, s) >= cfg.maxReplies THEN [ok |-> FALSE, err |-> E_LimitsExceeded, pd |-> pd1]
   ELSE [ok |-> TRUE, err |-> <<>>, pd |-> Append(pd1, [caller |-> s, callee |-> adr, ser |-> m.ser, born |-> cfg.epoch, orph |-> 0])]
 
+GateW(pd, qs, s, adr, m) == GateF(pd, qs, s, adr, m, FALSE)
 Gate(s, adr, m) == GateW(pend, queue, s, adr, m)
 
 \* rule-matched recipients of a client's message: each passes its own gate, refusals are silent
@@ -581,7 +585,7 @@ AutoStart(m) == ((m.fl \div 2) % 2) = 0
 
 \* m0: the message as the client wrote it (legitimate fields only; forged SENDER, unknown fields and
 \* CONTAINER_INSTANCE never survive and are therefore not part of the abstract message)
-Send(s, m0, rest) ==
+SendX(s, m0, rest, full) ==
   LET m == [m0 EXCEPT !.snd = IF cst[s] = "active" THEN uname[s] ELSE S_not_active_yet, !.org = s]
       adr == IF m.dst = <<>> THEN NoSlot ELSE Resolve(queue, m.dst) IN
   /\ cst[s] # "absent"
@@ -611,7 +615,7 @@ Send(s, m0, rest) ==
      ELSE IF adr = NoSlot THEN          \* broadcast signal
           /\ out' = Capture(Now, m, s, NoSlot) \o RuleCopies(Now, s, m, NoSlot)
           /\ UNCHANGED <<act, cfg, cst, dying, uid, uname, everNames, queue, rules, pend, mon>>
-     ELSE LET g == Gate(s, adr, m)
+     ELSE LET g == GateF(pend, queue, s, adr, m, full)
               \* a message with descriptors only goes to connections that negotiated descriptor passing; the check
               \* comes after the gate (so the gate's bookkeeping stays even when this check refuses the message)
               fdok == m.nfd = 0 \/ fdx.cap[adr] IN
@@ -620,6 +624,12 @@ Send(s, m0, rest) ==
                     \o (IF g.ok /\ fdok THEN <<To(adr, m)>> \o RuleCopies(Now, s, m, adr)
                         ELSE FromBus(Now, s, ErrReply(uname[s], m.ser, IF g.ok THEN E_NotSupported ELSE g.err)))
           /\ UNCHANGED <<act, cfg, cst, dying, uid, uname, everNames, queue, rules, mon>>
+
+Send(s, m0, rest) == SendX(s, m0, rest, FALSE)
+\* the same when the addressed recipient's queue is full (only a recipient that has stopped reading gets there)
+SendFull(s, m0, rest) ==
+  /\ m0.dst # <<>> /\ Resolve(queue, m0.dst) # NoSlot /\ cst[s] = "active"
+  /\ SendX(s, m0, rest, TRUE)
 
 \* KNOWN DEFECT (deviation): a non-signal without destination is handed back to libdbus inside the daemon, which
 \* answers it without any transaction: the reply carries no SENDER at all, its DESTINATION is whatever SENDER
